@@ -33,9 +33,10 @@
    observation in obl is the one a canonical trie representing the current map
    gives (get = map lookup, hash = specification root of the content). *)
 From Coq Require Import Permutation.
+From AQ Require Import Trie.SecureModel.   (* first: its record `strie` must not shadow TrieModel.strie *)
 From AQ Require Import Lib.Bytes Lib.Keccak Rlp.RlpSpec Trie.MptSpec Trie.TrieModel Trie.TrieInv
   Trie.MptSpecProofs Trie.TrieCodecDefs Trie.TrieFlagsProofs Trie.TrieTheorems Trie.TrieReopenProofs Trie.TrieProveProofs
-  Trie.TrieLazyDefs Trie.TrieFitsProofs Trie.TrieLazyTheorems.
+  Trie.TrieLazyDefs Trie.TrieFitsProofs Trie.TrieLazyTheorems Import.DeriveShaCode Trie.RootInjProofs Trie.SecureProofs Trie.IterModel Trie.TrieIterProofs Trie.IterProofs.
 Local Open Scope N_scope.
 
 (* TryGet returns exactly the content and leaves the trie unchanged *)
@@ -194,13 +195,14 @@ Print Assumptions C10_inmemory_prove_then_verify.
    Side conditions `lazy_ok` (checked along the run, Trie/TrieLazyTheorems.v lazy_op):
    hash/commit/iterate/prove: RLP sizes fit 64 bits (derived for contents below
    4 GiB: C10_sizes_fit); SetCacheLimit: a uint16; reopen: a root returned by an
-   earlier Commit of this run, and zero-hash / emptyRoot do not collide with a
-   non-empty content; iterate: keys of at most 48 bytes (the MODEL's iteration
+   earlier Commit of this run (zero-hash / emptyRoot not colliding with a non-empty
+   content) or a root under which the database stores nothing; iterate: keys of at most 48 bytes (the MODEL's iteration
    fuel is 200 — an artefact of the model, not of the code); prove: non-empty trie
    (the empty trie is the known finding, C10_empty_trie_absence_proof_refuted).
    Premises on H: 32-byte output; collision freedom on the encodings of canonical
-   nodes.  Not covered by any theorem: reopen of a root that was never committed,
-   SecureTrie's key hashing, DeriveSha's loop, trie.Database's reference counting. *)
+   nodes.  A reopen of a root under which nothing is stored observes Missing and
+   changes nothing.  SecureTrie: C10_secure_history; DeriveSha: C10_derive_sha_*.
+   Not covered by any theorem: trie.Database's reference counting / GC. *)
 Theorem C10_history : forall H : bytes -> bytes,
   (forall x, length (H x) = 32%nat) ->
   (forall m1 m2, canon m1 = true -> canon m2 = true -> H (spec_enc H m1) = H (spec_enc H m2) ->
@@ -230,13 +232,119 @@ Theorem C10_spec_root_of_map_unique : forall (H : bytes -> bytes) m1 m2 mp,
 Proof. exact denotes_root_unique. Qed.
 Print Assumptions C10_spec_root_of_map_unique.
 
+(* the root COMMITS to the content: two canonical tries with the same root hold the
+   same key/value map (collision freedom of H on encodings of canonical nodes) (full) *)
+Theorem C10_root_injective : forall H : bytes -> bytes,
+  (forall x, length (H x) = 32%nat) ->
+  (forall m1 m2, canon m1 = true -> canon m2 = true -> H (spec_enc H m1) = H (spec_enc H m2) ->
+                 spec_enc H m1 = spec_enc H m2) ->
+  forall m1 m2, canon m1 = true -> canon m2 = true -> all_fits H m1 -> all_fits H m2 ->
+  mpt_root_hex H (content_of m1) = mpt_root_hex H (content_of m2) ->
+  forall kb, lookup (content_of m1) (keybytes_to_hex kb) = lookup (content_of m2) (keybytes_to_hex kb).
+Proof. exact root_injective. Qed.
+Print Assumptions C10_root_injective.
+
+(* core/types/derive_sha.go DeriveSha as the code computes it (Import/DeriveShaCode.v:
+   a throw-away trie, Update(rlp(uint i), item_i) in a loop — the Go loop reuses one
+   key buffer, which has no meaning in the value-semantics model and is covered by the
+   buffer-reuse correspondence runs — then Hash) is the specification root of the
+   listing {rlp(i) -> item_i}; items non-empty (every RLP encoding is) (full) *)
+Theorem C10_derive_sha_is_spec_root : forall H : bytes -> bytes,
+  (forall x, length (H x) = 32%nat) ->
+  forall items d, lenN items <= two64 -> Forall (fun x => x <> []) items ->
+  derive_sha_code H d items = Ok (mpt_root H (indexed 0 items)).
+Proof. exact derive_sha_code_spec. Qed.
+Print Assumptions C10_derive_sha_is_spec_root.
+
+(* ... and DeriveSha is injective: two non-empty lists with the same root are equal
+   (sizes below 4 GiB so that the RLP size premise is derived) (full) *)
+Theorem C10_derive_sha_injective : forall H : bytes -> bytes,
+  (forall x, length (H x) = 32%nat) ->
+  (forall m1 m2, canon m1 = true -> canon m2 = true -> H (spec_enc H m1) = H (spec_enc H m2) ->
+                 spec_enc H m1 = spec_enc H m2) ->
+  forall d items1 items2 r, items1 <> [] -> items2 <> [] -> lenN items1 <= two64 -> lenN items2 <= two64 ->
+  Forall (fun x => x <> []) items1 -> Forall (fun x => x <> []) items2 ->
+  byte_content_size (indexed 0 items1) < 2 ^ 32 -> byte_content_size (indexed 0 items2) < 2 ^ 32 ->
+  derive_sha_code H d items1 = Ok r -> derive_sha_code H d items2 = Ok r -> items1 = items2.
+Proof. exact derive_sha_injective. Qed.
+Print Assumptions C10_derive_sha_injective.
+
+(* trie.New on a root under which the database stores nothing (a root that was
+   never committed) fails with MissingNodeError (full; also a case of C10_history) *)
+Theorem C10_reopen_uncommitted_root_missing : forall (H : bytes -> bytes) d r,
+  db_get d (to_hash r) = None -> r <> zero_hash -> r <> empty_root H -> trie_new H r d = Missing.
+Proof. exact trie_new_missing. Qed.
+Print Assumptions C10_reopen_uncommitted_root_missing.
+
+(* trie/secure_trie.go (Trie/SecureModel.v): a SecureTrie history — TryUpdate / TryDelete
+   / TryGet / GetKey / Hash / Commit / NewSecure on committed or unknown roots — behaves
+   like a finite map on the caller's ORIGINAL keys, provided the hash is injective ON THE
+   KEYS USED (K; not globally): `sec_trace` says every get observes the original-key map
+   (`am`, evolving by smap), every Hash/Commit observes the specification root of the
+   hashed-key map (`rel mp am`: mp is exactly the image of am under k |-> hex (H k)),
+   GetKey (H k) observes k whenever k's preimage is in the cache or was flushed by a
+   Commit.  `sec_ok`: the side conditions of C10_history read along the secure run. (full) *)
+Theorem C10_secure_history : forall H : bytes -> bytes,
+  (forall x, length (H x) = 32%nat) ->
+  (forall m1 m2, canon m1 = true -> canon m2 = true -> H (spec_enc H m1) = H (spec_enc H m2) ->
+                 spec_enc H m1 = spec_enc H m2) ->
+  forall K : bytes -> Prop, (forall k1 k2, K k1 -> K k2 -> H k1 = H k2 -> k1 = k2) ->
+  forall ops, Forall (keys_in K) ops -> sec_ok H sec_init (fun _ => None) [] ops ->
+  exists s' obl, sec_run H sec_init ops = (s', obl) /\
+    sec_trace H K (fun _ => None) [] (fun _ => None) [] (fun _ => false) (fun _ => false) ops obl.
+Proof. exact secure_history. Qed.
+Print Assumptions C10_secure_history.
+
+(* GetKey returns the preimage: if the last TryUpdate/TryDelete on k was a TryUpdate,
+   GetKey (H k) returns k, whether or not Commits happened in between (full) *)
+Theorem C10_secure_getkey : forall H : bytes -> bytes,
+  (forall x, length (H x) = 32%nat) ->
+  (forall m1 m2, canon m1 = true -> canon m2 = true -> H (spec_enc H m1) = H (spec_enc H m2) ->
+                 spec_enc H m1 = spec_enc H m2) ->
+  forall K : bytes -> Prop, (forall k1 k2, K k1 -> K k2 -> H k1 = H k2 -> k1 = k2) ->
+  forall ops k, Forall (keys_in K) ops -> Forall no_reopen ops ->
+  lazy_ok H init_state (fun _ => None) [] (flat_map (tr H) ops) -> K k ->
+  last_upd false ops k = true ->
+  snd (sec_step H (fst (sec_run H sec_init ops)) (SGetKey (H k))) = OVal (Some k).
+Proof. exact getkey_spec. Qed.
+Print Assumptions C10_secure_getkey.
+
+(* trie/iterator.go as the state machine it is (Trie/IterModel.v: the stack of
+   nodeIteratorState with the mutable child index, seek / peek / nextChild / push / pop /
+   Next(descend), Leaf / LeafKey / LeafBlob, Iterator.Next on top): draining
+   trie.NewIterator(t.NodeIterator(start)) over a trie in its general in-memory form
+   yields exactly the content entries whose path is >= start, in path order — each key
+   once, nothing else (`keyed [] J` lists J with byte keys; it can only fail on keys with
+   an odd number of nibbles, which TryUpdate never creates).  With start = [] that is the
+   whole content.  `nsize m + 2 <= fuel`: the model's fuel covers the node count;
+   premise root <> keccak(nil): newNodeIterator's emptyState test. (full) *)
+Theorem C10_iterator_from_start : forall H : bytes -> bytes,
+  (forall x, length (H x) = 32%nat) ->
+  (forall m1 m2, canon m1 = true -> canon m2 = true -> H (spec_enc H m1) = H (spec_enc H m2) ->
+                 spec_enc H m1 = spec_enc H m2) ->
+  forall d m t start fuel, lazy_trie H d m t -> all_fits H m -> db_sound H d ->
+  mpt_root_hex H (content_of m) <> H [] -> (nsize m + 2 <= fuel)%nat ->
+  exists t', lazy_trie H d m t' /\
+    trie_iterate_from H t d start fuel =
+    bind (keyed [] (filter (fun kv => bytes_ge (fst kv) (removelast (keybytes_to_hex start))) (content_of m)))
+         (fun l => Ok (l, t')).
+Proof. exact trie_iterate_from_lazy. Qed.
+Print Assumptions C10_iterator_from_start.
+
+(* the content of a canonical trie is listed in strictly increasing path order (so the
+   filter above is a suffix and "each key once" holds) (full) *)
+Theorem C10_content_sorted : forall m, canon m = true ->
+  Sorted.StronglySorted path_lt (map fst (content_of m)).
+Proof. exact content_sorted. Qed.
+Print Assumptions C10_content_sorted.
+
 (* reopening a committed root, over the database of the commit or any later one *)
 Theorem C10_reopen_step : forall H : bytes -> bytes,
   (forall x, length (H x) = 32%nat) ->
   forall d d' m mp, denotes m mp -> avail H d m ->
   (forall m0, canon m0 = true -> stored H d m0 -> stored H d' m0) ->
   mpt_root_hex H (content_of m) <> zero_hash -> mpt_root_hex H (content_of m) <> empty_root H ->
-  exists t, trie_new H (mpt_root_hex H (content_of m)) d' = Ok t /\ rep H d' mp t.
+  exists t, trie_new H (mpt_root_hex H (content_of m)) d' = Ok t /\ TrieLazyTheorems.rep H d' mp t.
 Proof. exact reopen_step. Qed.
 Print Assumptions C10_reopen_step.
 
@@ -361,8 +469,42 @@ Proof. vm_compute. reflexivity. Qed.
 Example C10_example_history_ok :
   lazy_ok keccak256 init_state (fun _ => None) []
     [OpCommit; OpLimit 1; OpUpdate [x01; x02] [x03]; OpGet [x01]; OpDelete [x01; x02]; OpGet [x01; x02];
-     OpReopen (empty_root keccak256)].
+     OpReopen (empty_root keccak256); OpReopen (repeat x07 32)].
 Proof.
   cbn [lazy_ok]. split; [exact (fits_map_empty keccak256 keccak256_length)|].
-  vm_compute. repeat split; try reflexivity; try (intros; reflexivity).
+  vm_compute. repeat split; try reflexivity; try (intros; reflexivity); try (intro E; discriminate E).
 Qed.
+
+(* non-vacuity of C10_secure_history: a key set on which Keccak is injective (checked by
+   computation) and a SecureTrie history over it that meets the side conditions *)
+Example C10_example_secure_ok :
+  let k1 := [x01] in let k2 := [x02; x03] in
+  let K := fun k => k = k1 \/ k = k2 in
+  let ops := [SUpdate k1 [x0a]; SUpdate k2 [x0b; x0c]; SGet k1; SGetKey (keccak256 k1); SDelete k2; SGet k2] in
+  (forall a b, K a -> K b -> keccak256 a = keccak256 b -> a = b) /\
+  Forall (keys_in K) ops /\ sec_ok keccak256 sec_init (fun _ => None) [] ops.
+Proof.
+  cbv zeta. split; [|split].
+  - intros a b [-> | ->] [-> | ->] E; try reflexivity; vm_compute in E; discriminate E.
+  - repeat (apply Forall_cons || apply Forall_nil); cbn; auto.
+  - vm_compute. repeat split; try reflexivity; try (intros; reflexivity); try (intro E; discriminate E).
+Qed.
+
+(* non-vacuity of C10_iterator_from_start: on the do/dog/doge/horse trie, iteration from
+   "dog" lists doge, dog, do, horse (a key that is a prefix of others comes after them in
+   path order) and iteration from "dp" lists horse only *)
+Example C10_example_iterator :
+  let s2b := map (fun n => n2b n) in
+  let do_ := s2b [100; 111] in let dog := s2b [100; 111; 103] in
+  let doge := s2b [100; 111; 103; 101] in let horse := s2b [104; 111; 114; 115; 101] in
+  let ops := [(doge, [x01]); (horse, [x02]); (do_, [x03]); (dog, [x04])] in
+  match apply_ops empty_trie [] ops with
+  | Ok t =>
+    match trie_iterate_from keccak256 t [] dog 100, trie_iterate_from keccak256 t [] (s2b [100; 112]) 100 with
+    | Ok (l1, _), Ok (l2, _) =>
+      (map fst l1, map fst l2) = ([doge; dog; do_; horse], [horse])
+    | _, _ => False
+    end
+  | _ => False
+  end.
+Proof. vm_compute. reflexivity. Qed.
